@@ -31,7 +31,7 @@ class EngineA:
         return M.Exec(s.mir, unwind=s.unwind)
 
     # ---- queries
-    def claim(s, name, term, expect='unsat', kind='claim', required=True, get=None, meaning='', cap=None, extra_pre=(), pre=None):
+    def claim(s, name, term, expect='unsat', kind='claim', required=True, get=None, meaning='', cap=None, extra_pre=(), pre=None, replay=None):
         """`term` is the NEGATED property (a counterexample description); expect unsat. For vacuity twins expect sat."""
         if term is False and expect == 'unsat':
             q = common.Query(name, '', expect, kind, required, cap, 0, meaning)
@@ -45,10 +45,11 @@ class EngineA:
             script, nd = M.emit([term], extra_pre=extra_pre, get=get, pre=pre)
         q = common.Query(name, script, expect, kind, required, cap, max(nd, 1), meaning)
         q.get = get
+        q.replay = replay
         s.queries.append(q)
         return q
 
-    def panic_obligations(s, name, since=0, required=True, extra_pre=(), cap=None, get=None):
+    def panic_obligations(s, name, since=0, required=True, extra_pre=(), cap=None, get=None, replay=None):
         """one query for the disjunction of all panic/overflow/bounds/unwinding obligations recorded since `since`"""
         obl = M.C.obl[since:]
         live = [(g, c, d, k) for (g, c, d, k) in obl if M.AND(g, c) is not False]
@@ -56,7 +57,7 @@ class EngineA:
                                                                 'kinds': {k: sum(1 for o in obl if o[3] == k) for k in sorted({o[3] for o in obl})}}
         term = M.OR(*[M.AND(g, c) for (g, c, d, k) in live])
         q = s.claim(name, term, kind='panic-obligations', required=required, extra_pre=extra_pre, cap=cap, get=get,
-                    meaning=f'some overflow/bounds/division/cast/unreachable/unwinding site among {len(obl)} is reachable')
+                    meaning=f'some overflow/bounds/division/cast/unreachable/unwinding site among {len(obl)} is reachable', replay=replay)
         q.obl = live
         return q
 
@@ -72,6 +73,25 @@ class EngineA:
             if f not in ck.functions:
                 ck.functions.append(f)
         return qs
+
+    def settle(s, qs):
+        """turn verdicts into check outcomes: SAT claims are replayed natively before anything is reported"""
+        ck = s.ck
+        for q in qs:
+            if q.kind == 'vacuity' and q.verdict == 'unsat':
+                ck.inconclusive.append(f'vacuity twin {q.name} is unsatisfiable: the claims it guards are vacuous (assumptions inconsistent or code unreachable)')
+            if q.kind != 'vacuity' and q.verdict == 'sat' and q.expect == 'unsat':
+                r = None
+                if getattr(q, 'replay', None):
+                    r = q.replay(q.model)
+                if r:
+                    ck.violation(f'{q.name}: {r[0]}', r[1])
+                else:
+                    detail = ''
+                    if q.kind == 'panic-obligations':
+                        detail = ' reachable per solver: ' + '; '.join(d for d, k, mm in s.bisect_obligations(q)[:4])
+                    (ck.inconclusive if q.required else ck.not_covered).append(f'{q.name}: solver model {q.model} does not reproduce on the native build (encoding or oracle problem){detail}')
+        ck.samples += [{'query': q.name, 'meaning': q.meaning, 'verdict': q.verdict, 'seconds': round(q.secs, 2), 'definitions': q.ndefs} for q in qs if q.kind == 'claim' and q.ndefs > 0][:6]
 
     def bisect_obligations(s, q, cap=60):
         """which obligation of a SAT panic query is reachable (only called on failure)"""
